@@ -8,7 +8,7 @@
 (* before evaluation.  Versions on the wire: 3.0 = 3, 3.1 = 4, 3.2 = 5,    *)
 (* 3.3 = 6.                                                                *)
 (***************************************************************************)
-EXTENDS Naturals, FiniteSets, TLC, Json
+EXTENDS Naturals, Sequences, FiniteSets, TLC, Json
 
 CONSTANTS MaxFeatures, ExportOn
 
@@ -24,10 +24,15 @@ F31 == {"scope_block", "scope_rule", "scope_check", "check_all", "op_bitand", "o
 F33 == {"reject_if", "closure_lazy_and", "closure_lazy_or", "closure_all", "closure_any", "typeof", "hetero_eq", "hetero_neq",
         "null_fact", "null_rule_head", "null_rule_body", "null_expr", "null_in_array",
         "array_fact", "array_rule_body", "array_expr", "map_fact", "map_expr", "get_array", "get_map"}
+\* operators are detected WHEREVER they stand: after an older operator in the same expression, in a later
+\* expression of the query, in a later alternative of a check, in a rule
+Places == {"after_older", "second_expr", "second_alt", "in_rule"}
+Placed31 == {o \o "@" \o p : o \in {"op_bitand", "op_bitor", "op_bitxor", "op_strict_noteq"}, p \in Places}
+Placed33 == {o \o "@" \o p : o \in {"hetero_eq", "hetero_neq", "typeof", "closure_lazy_or"}, p \in Places}
 F30 == {"plain_fact", "plain_rule", "check_one", "op_strict_eq", "op_lt", "set_fact", "string_ops"}
-Features == F30 \cup F31 \cup F33
+Features == F30 \cup F31 \cup F33 \cup Placed31 \cup Placed33
 
-MinVersion(f) == IF f \in F33 THEN V33 ELSE IF f \in F31 THEN V31 ELSE V30
+MinVersion(f) == IF f \in F33 \cup Placed33 THEN V33 ELSE IF f \in F31 \cup Placed31 THEN V31 ELSE V30
 
 MaxOf(S) == CHOOSE x \in S : \A y \in S : y <= x
 
